@@ -9,6 +9,7 @@ Theorem rom20_build_aes :
   exists r, rom20_aes (y_sigsize y) (y_kek y) file = Some r /\
     t_secs r = spec_of (y_secs y) /\ t_signed r = y_signed y /\ t_pv r = y_pv y /\ t_cv r = y_cv y /\
     t_build r = y_build y /\ t_ts r = y_ts y /\ t_sig r = sigpart y /\
-    file = firstn (t_signed_len r) file ++ sigpart y /\ length (firstn (t_signed_len r) file) = t_signed_len r.
+    file = firstn (t_signed_len r) file ++ sigpart y /\ length (firstn (t_signed_len r) file) = t_signed_len r /\
+    t_boot_index r = 0%nat /\ hdr_first_boot_section_id file = option_map s_uid (hd_error (y_secs y)).
 Proof. exact rom20_build_aes_thm. Qed.
 Print Assumptions rom20_build_aes.
